@@ -62,7 +62,7 @@ def canon(res):
 
 def method_calls(q, rng, tmpdir):
     """name -> zero-argument callable (arguments fixed per object so that results are comparable)"""
-    r = 0.03 if q.order != 'r1' else 0.05
+    r = float(min(0.03 * np.min(q.R0), 0.2 * getattr(q, 'r_singularity', 1e100), 0.1 / np.max(q.curvature)))
     pts = [[r, 0.3, 0.1], [r, 2.0, 0.7]]
     ph = np.array([0.1, 1.3, 7.0])
     calls = {
@@ -121,6 +121,12 @@ def run(rng, objs, nseq, seqlen, heavy=True):
                     except ImportError as ex:
                         res.setdefault('not_executable', set()).add('%s (%s)' % (nm, ex))
                         continue
+                    except ValueError as ex:
+                        if 'different signs' in str(ex):      # root bracket of the library solver inadequate at this radius (partial clause of C14)
+                            res.setdefault('not_executable', set()).add('%s (bracket of root_scalar inadequate for one configuration)' % nm)
+                            continue
+                        res['disagreements'].append(dict(kernel='diag', name=nm, why='raised ValueError: %s' % str(ex)[:200], case=c['kwargs']))
+                        break
                     except Exception as ex:
                         res['disagreements'].append(dict(kernel='diag', name=nm, why='raised %s: %s' % (type(ex).__name__, str(ex)[:200]), case=c['kwargs']))
                         break
